@@ -130,6 +130,9 @@ func runResize(rep *Report) {
 				if s.F == nil {
 					break
 				}
+				if i%3 == 2 && k%2 == 1 {
+					s.FillAndOverflow(r) // a full file with meta pages beyond its limit, then the limit changes
+				}
 				s.ResizeProbe(r)
 			}
 			if s.F != nil {
